@@ -366,6 +366,8 @@ def expected(s, package):
         for (ty, v, l) in slots:
             if ty in sup:
                 exp["str"][ty] = v
+                if l:
+                    exp.setdefault("late_str", set()).add(ty)      # set after the audio: may be ignored, must not come back altered
         stored = [(ty, v) for (ty, v, l) in slots if ty in sup]
         if c in WAVLIKE and any(len(v) >= 2046 for ty, v in stored):
             classes.add("info-2046")
@@ -472,6 +474,9 @@ def judge(s, package):
         F.append(("audio", "audio read back differs from what was written: '%s'" % s.read[:100]))
     m = s.meta or {}
     for ty, v in exp["str"].items():
+        if ty in exp.get("late_str", ()) and m.get(ty) is None:
+            s.late_ignored = getattr(s, "late_ignored", 0) + 1
+            continue
         if m.get(ty) != v:
             stale = ty == 3 and m.get(ty) is not None and m[ty].startswith(v) and len(m[ty]) - len(v) <= 4
             F.append(("str-3-stale-suffix" if stale else "str-%d" % ty, "string %s: set %r, re-opened file returns %r" % (STR_NAMES.get(ty, ty), v[:60] + (b"..%d" % len(v) if len(v) > 60 else b""), m.get(ty) if m.get(ty) is None else m.get(ty)[:60])))
